@@ -148,6 +148,7 @@ func runC20(c *Ctx, r *Rec) {
 	}
 
 	checkMakeLenThenAppend(c, r, "D3-made-length-not-appended-to", c.allFuncDecls("module"))
+	shapeLints(c, r, c.allFuncDecls("module"))
 	checkCommaOkIntoCollected(c, r, "D5-assertion-keeps-collected", c.allFuncDecls("module"))
 	checkNoReadBackOfRangedMap(c, r, "D3-values-from-the-ranged-pairs", c.allFuncDecls("module"))
 	for _, sn := range c.allNamed("module") {
